@@ -128,14 +128,25 @@ def attributeNameId (env : Env) (stack : NsStack) (pfx name : Str) (prefixSpan :
 def Builder.element (b : Builder) (pfx loc : StrSpan) : Builder :=
   { b with eb := some (ElementBuilder.new pfx loc) }
 
-/-- `DocumentBuilder::prefix`: the two registrations happen before the `unwrap`. -/
-def Builder.prefix (b : Builder) (pfx uri : Str) : Step Builder :=
-  let r1 := b.env.internPrefix pfx
-  let r2 := r1.1.internNamespace uri
-  match b.eb with
-  | none => .panic
-  | some eb =>
-    .ok { b with env := r2.1, eb := some { eb with namespaces := eb.namespaces ++ [(r1.2, r2.2)] } }
+/-- The attribute name `DocumentBuilder::prefix` reports for a repeated declaration. -/
+def declDisplayName (pfx : Str) : Str :=
+  if pfx.isEmpty then ['x', 'm', 'l', 'n', 's'] else ['x', 'm', 'l', 'n', 's', ':'] ++ pfx
+
+/-- `DocumentBuilder::prefix`: the URI is decoded like any attribute value (errors propagate),
+    then the two registrations happen, then the `unwrap`, then the "declared twice" test. -/
+def Builder.prefix (b : Builder) (pfx : Str) (uri : StrSpan) (nameSpan : Span) : Step Builder :=
+  match parseContentGo true uri.start 0 uri.text with
+  | .error e => .err (ParseErr.ofContent e) b.env
+  | .ok u =>
+    let r1 := b.env.internPrefix pfx
+    let r2 := r1.1.internNamespace u
+    match b.eb with
+    | none => .panic
+    | some eb =>
+      if eb.namespaces.any (fun d => d.1 == r1.2) then
+        .err (.duplicateAttribute (declDisplayName pfx) nameSpan) r2.1
+      else
+        .ok { b with env := r2.1, eb := some { eb with namespaces := eb.namespaces ++ [(r1.2, r2.2)] } }
 
 /-- The attribute name carried by `DuplicateAttribute`. -/
 def attrDisplayName (pfx loc : Str) : Str :=
@@ -163,6 +174,8 @@ structure AttrLoop where
   env : Env
   seenIds : List Str
   idNodes : List (Str × Path)
+  /-- `seen_name_ids` -/
+  seenNames : List Nat
   /-- children of the new element so far, last first -/
   rkids : List Tree
   /-- `attribute_spans` -/
@@ -181,13 +194,15 @@ def addAttributes (stack : NsStack) (node : Path) : AttrLoop → List AttributeB
     | .panic => .panic
     | .err e env => .err e env
     | .ok (env1, nameId) =>
-      if nameId == Env.xmlIdName && st.seenIds.contains ab.value then
+      if st.seenNames.contains nameId then
+        .err (.duplicateAttribute (attrDisplayName ab.pfx ab.name) ab.nameSpan) env1
+      else if nameId == Env.xmlIdName && st.seenIds.contains ab.value then
         .err (.duplicateId ab.value ab.valueSpan) env1
       else
         let seen := if nameId == Env.xmlIdName then ab.value :: st.seenIds else st.seenIds
         let ids := if nameId == Env.xmlIdName then insertId st.idNodes ab.value node else st.idNodes
         addAttributes stack node
-          { env := env1, seenIds := seen, idNodes := ids,
+          { env := env1, seenIds := seen, idNodes := ids, seenNames := st.seenNames ++ [nameId],
             rkids := .node (.attribute nameId ab.value) [] :: st.rkids,
             aspans := st.aspans ++ [(nameId, ab.nameSpan, ab.valueSpan)] } rest
 
@@ -207,7 +222,7 @@ def Builder.openElement (b : Builder) : Step Builder :=
     | .ok (env1, nameId) =>
       let node := b.curPath ++ [b.cur.rkids.length]
       match addAttributes stack node
-          { env := env1, seenIds := b.seenIds, idNodes := b.idNodes,
+          { env := env1, seenIds := b.seenIds, idNodes := b.idNodes, seenNames := [],
             rkids := namespaceKids eb.namespaces, aspans := [] } eb.attributes with
       | .panic => .panic
       | .err e env => .err e env
@@ -239,10 +254,23 @@ def Builder.text (b : Builder) (t : StrSpan) : Step Builder :=
     let r := b.addText content
     .ok { r.1 with spans := r.1.spans.extendText r.2 t.span }
 
-/-- `DocumentBuilder::cdata_text` + `extend_text_span`: the content is taken verbatim. -/
+/-- `str::replace("\r\n", "\n")`. -/
+def replaceCrLf : Str → Str
+  | [] => []
+  | [c] => [c]
+  | c :: d :: rest =>
+    if c = '\r' ∧ d = '\n' then '\n' :: replaceCrLf rest else c :: replaceCrLf (d :: rest)
+
+/-- `str::replace('\r', "\n")`. -/
+def replaceCr (s : Str) : Str := s.map (fun c => if c = '\r' then '\n' else c)
+
+/-- The `Cdata` arm of `_parse`: an empty section is skipped entirely; otherwise
+    `DocumentBuilder::cdata_text` (line ends normalised, nothing else decoded) + `extend_text_span`. -/
 def Builder.cdata (b : Builder) (t : StrSpan) : Step Builder :=
-  let r := b.addText t.text
-  .ok { r.1 with spans := r.1.spans.extendText r.2 t.span }
+  if t.text.isEmpty then .ok b
+  else
+    let r := b.addText (replaceCr (replaceCrLf t.text))
+    .ok { r.1 with spans := r.1.spans.extendText r.2 t.span }
 
 /-- The shared tail of `close_element` / `close_element_immediate`:
     `self.current_node_id = current_node.parent().expect("Cannot close document node")`. -/
@@ -268,6 +296,10 @@ def Builder.closeElement (b : Builder) (pfx loc : StrSpan) (endSpan : StrSpan) :
   | .panic => .panic
   | .err e env => .err e env
   | .ok (env1, nameId) =>
+    -- an end tag without any open element (possible in a fragment)
+    if b.parents.isEmpty then
+      .err (.invalidCloseTag pfx.text loc.text (Span.fromPrefixName pfx loc)) env1
+    else
     match b.cur.value with
     | .element n =>
       if n != nameId then
@@ -295,8 +327,9 @@ def Builder.processingInstruction (b : Builder) (target : StrSpan) (content : Op
 /-- One arm of the `match token` in `_parse`. -/
 def Builder.step (b : Builder) : Token → Step Builder
   | .attribute pfx loc value _ =>
-    if pfx.text == ['x', 'm', 'l', 'n', 's'] then b.prefix loc.text value.text
-    else if loc.text == ['x', 'm', 'l', 'n', 's'] then b.prefix [] value.text
+    if pfx.text == ['x', 'm', 'l', 'n', 's'] then b.prefix loc.text value (Span.fromPrefixName pfx loc)
+    else if pfx.text.isEmpty && loc.text == ['x', 'm', 'l', 'n', 's'] then
+      b.prefix [] value (Span.fromPrefixName pfx loc)
     else b.attribute pfx loc value
   | .text t => b.text t
   | .cdata t _ => b.cdata t
@@ -320,7 +353,11 @@ def Builder.step (b : Builder) : Token → Step Builder
 /-- The `loop` of `_parse`: `lexErr` is the position at which the tokenizer (external) gave up,
     if it did (`ParseError::XmlParser(e, position)`). -/
 def Builder.run (b : Builder) : List Token → Option Nat → Step Builder
-  | [], none => .ok b
+  | [], none =>
+    -- the input ended inside a start tag
+    match b.eb with
+    | some eb => .err (.unclosedTag eb.span) b.env
+    | none => .ok b
   | [], some pos => .err (.xmlParser pos) b.env
   | t :: ts, lexErr =>
     match b.step t with
@@ -396,12 +433,10 @@ def build (m : Mode) (len : Nat) (env : Env) (ts : List Token) (lexErr : Option 
     | .document => b.finishDocument len
     | .fragment => b.finishFragment
 
-/-- `parse_bytes`: `decode(bytes, None)` is external (xhtmlchardet + encoding_rs); it
-    `unwrap`s the detected encoding, so an input for which none is found is a panic. `decoded`
-    = what the tokenizer made of the decoded text (length, tokens, tokenizer error). -/
-def parseBytes (env : Env) (decoded : Option (Nat × List Token × Option Nat)) : BuildResult :=
-  match decoded with
-  | none => .panic
-  | some (len, ts, lexErr) => build .document len env ts lexErr
+/-- `parse_bytes`: `decode(bytes, None)` is external (xhtmlchardet + encoding_rs) and total — it
+    falls back to UTF-8 when no known encoding is found. The arguments are what the tokenizer made
+    of the decoded text (length, tokens, tokenizer error). -/
+def parseBytes (env : Env) (len : Nat) (ts : List Token) (lexErr : Option Nat) : BuildResult :=
+  build .document len env ts lexErr
 
 end XotModel
